@@ -12,7 +12,7 @@ fn(H + "hms", params={"level_config": "list[ref:BaseLevelConfig]", "gsc": "ref:$
    returns="ref:DemeTree", fresh_result=True,
    requires=[cl("levels", "level_config != None and kind(level_config) == 0 and len(level_config) >= 1 and options != None and "
                 "forall(lambda l: imp(0 <= l < len(level_config), level_config[l] != None and level_config[l].lsc != None "
-                "and WfProblem(level_config[l].problem) "
+                "and level_config[l].problem != None and WfProblem(level_config[l].problem) "
                 "and forall(lambda o: imp(in_chain(level_config[l].problem, o), wowner(o) == None), o='ref:Problem')), pat=level_config[l])"),
              cl("conditions", "gsc != None and MechOk(sprout_cond)")],
    modifies=[(f, c.replace("self", "result") if "self" in c else c) for f, c in []] + [("*", "True")],
